@@ -28,6 +28,8 @@
 #include <aws/common/string.h>
 #include <aws/common/thread.h>
 #include <errno.h>
+#include <fcntl.h>
+#include <signal.h>
 #include <limits.h>
 #include <stdlib.h>
 #include <string.h>
@@ -97,6 +99,43 @@ static void s_reset(void) {
         s_once_flag[i] = f;
         s_once_nregs[i] = 0;
     }
+}
+
+/* Wall-clock watchdog per case: a hang that never reaches a schedule point (an endless loop inside the library, a
+ * thread left spinning after the run) is invisible to detsched.  A case takes milliseconds; after WATCHDOG_S seconds
+ * the handler reports and leaves.  Every such exit is recorded in the file named by C20_HANG_FILE (one byte per hang);
+ * once HANG_LIMIT hangs are on record the remaining cases are not run (each would cost WATCHDOG_S more seconds). */
+#define WATCHDOG_S 8
+#define HANG_LIMIT 3
+static void s_on_alarm(int sig) {
+    (void)sig;
+    static const char msg[] = "\nP MONITOR wall-clock watchdog: no progress for 8 s (hang outside any schedule point)\n";
+    ssize_t r = write(1, msg, sizeof(msg) - 1);
+    (void)r;
+    const char *f = getenv("C20_HANG_FILE");
+    if (f) {
+        int fd = open(f, O_WRONLY | O_CREAT | O_APPEND, 0644);
+        if (fd >= 0) {
+            r = write(fd, "h", 1);
+            close(fd);
+        }
+    }
+    _exit(3);
+}
+
+static int s_hangs_on_record(void) {
+    const char *f = getenv("C20_HANG_FILE");
+    if (!f) {
+        return 0;
+    }
+    int fd = open(f, O_RDONLY);
+    if (fd < 0) {
+        return 0;
+    }
+    char buf[64];
+    ssize_t n = read(fd, buf, sizeof(buf));
+    close(fd);
+    return n > 0 ? (int)n : 0;
 }
 
 static int s_current_slot(void) {
@@ -364,6 +403,14 @@ int main(void) {
                 printf("bad-op\n");
                 continue;
             }
+            if (s_hangs_on_record() >= HANG_LIMIT) {
+                printf("P MONITOR not run: %d earlier cases of this run hung\n", HANG_LIMIT);
+                fflush(stdout);
+                continue;
+            }
+            fflush(stdout);
+            signal(SIGALRM, s_on_alarm);
+            alarm(WATCHDOG_S);
             cfg.max_steps = 20000;
             cfg.create_return_point = 1;
             cfg.clock_tick_ns = s_tick;
@@ -424,6 +471,7 @@ int main(void) {
                 printf("W ev %s\n", buf);
             }
             fflush(stdout);
+            alarm(0);
             if (rc != 0) {
                 /* the library's global state is not reusable after a deadlock: report as a crash of this case */
                 _exit(3);
